@@ -8,7 +8,7 @@
 From Coq Require Import String ZArith List Bool Lia Arith.
 Import ListNotations.
 Set Warnings "-abstract-large-number".
-From SqfVerif Require Import Gen.DiagCodes Gen.Consts VM.VmDefs VM.VmExec VM.SchedDefs VM.SchedOps VM.SchedBase VM.SchedIter VM.SchedEquiv VM.C12Defs VM.C12Proofs VM.C12FrameOps VM.C12Frame VM.C12Commute VM.C12NsEq VM.C12Globals VM.C12GlobalsCommute.
+From SqfVerif Require Import Gen.DiagCodes Gen.Consts VM.VmDefs VM.VmExec VM.SchedDefs VM.SchedOps VM.SchedBase VM.SchedIter VM.SchedEquiv VM.C12Defs VM.C12Proofs VM.C12FrameOps VM.C12Frame VM.C12Commute VM.C12NsEq VM.C12Globals VM.C12GlobalsCommute VM.C12GlobalsAll.
 Local Open Scope list_scope.
 
 (* the instrumented scheduler (switches off) is the shared one *)
@@ -315,15 +315,54 @@ Print Assumptions C12_same_lookups_is_reordering.
    (instructions executed, restarts), and machines afterwards that are again equal in every field (contexts, log, clock, error
    state, ids) except the order of namespace entries. The turn may read, assign and CREATE any globals: R and W only have to list
    them (any lists with visit_ok .. = true).
-   FULL STATEMENT: the same without the hypothesis visit_ok. MISSING: visit_ok also excludes turns that execute spawn, terminate or
-   scriptDone; these operators do not touch the namespaces, but the exact frame lemmas of C12Frame.v that the proof reuses for
-   everything that does not touch a global are stated without them. *)
+   FULL STATEMENT: the same without the hypothesis visit_ok (which also excludes turns that execute spawn, terminate or scriptDone):
+   proved as C12_equivalent_machines_take_equivalent_turns below; this version is kept because the commutation proofs use it. *)
 Theorem C12_equivalent_machines_take_equivalent_turns_partial : forall b1 b2 R W r r' i x r1 v,
   req r r' -> i < length (r_ctxs r) -> visit_ok b1 R W r i = true ->
   visit_ctx b1 b2 r i = Ok (x, r1, v) ->
   exists r1', visit_ctx b1 b2 r' i = Ok (x, r1', v) /\ req r1 r1'.
 Proof. exact req_turn_congruence. Qed.
 Print Assumptions C12_equivalent_machines_take_equivalent_turns_partial.
+
+(* (1) at full strength: req is a congruence for EVERY scheduler turn - whatever the turn executes (globals read, assigned or
+   created, spawn, terminate, scriptDone, sleep, errors and their handlers, the time limit): equivalent machines take equivalent
+   turns, with the same result and the same visit record, and the machines afterwards are again equal in every field (contexts
+   including spawned ones and raised terminate flags, next script id, log, clock, error state) except the order of namespace
+   entries. Every instruction that touches a global has a one-key footprint (VM/C12GlobalsAll.v: keyof_u, keyof_b); spawn,
+   terminate and scriptDone do not touch the namespaces and are proved directly. *)
+Theorem C12_equivalent_machines_take_equivalent_turns : forall b1 b2 r r' i x r1 v,
+  req r r' -> i < length (r_ctxs r) ->
+  visit_ctx b1 b2 r i = Ok (x, r1, v) ->
+  exists r1', visit_ctx b1 b2 r' i = Ok (x, r1', v) /\ req r1 r1'.
+Proof. exact req_turn_congruence_all. Qed.
+Print Assumptions C12_equivalent_machines_take_equivalent_turns.
+
+(* ... and a turn that leaves the modelled fragment, hangs or hits undefined behaviour does exactly the same from the equivalent machine *)
+Theorem C12_equivalent_machines_fail_alike : forall b1 b2 r r' i,
+  req r r' -> i < length (r_ctxs r) ->
+  match visit_ctx b1 b2 r i with Ok _ => True | x => visit_ctx b1 b2 r' i = x end.
+Proof. exact req_turn_congruence_fail. Qed.
+Print Assumptions C12_equivalent_machines_fail_alike.
+
+(* non-vacuity: the spawning machine of C12_spawning_turns_commute_refuted with two globals, entered in the one and in the other order:
+   the machines are req and not equal, the turn of script 0 (which spawns) comes back with Ok from both *)
+Definition ab_nss : list (string * list (string * value)) := [(default_ns, [("a"%string, VNum 1); ("b"%string, VNum 2)])].
+Definition ba_nss : list (string * list (string * value)) := [(default_ns, [("b"%string, VNum 2); ("a"%string, VNum 1)])].
+Example ex_req_reordered : req (set_nss sp_machine ab_nss) (set_nss sp_machine ba_nss) /\ set_nss sp_machine ab_nss <> set_nss sp_machine ba_nss /\
+  0 < length (r_ctxs (set_nss sp_machine ab_nss)) /\
+  match visit_ctx false false (set_nss sp_machine ab_nss) 0 with Ok (_, r1, _) => length (r_ctxs r1) = 3 | _ => False end.
+Proof.
+  split; [|split; [|split]].
+  - split; [reflexivity|]. split.
+    + intros ns n. unfold raw_get, ab_nss, ba_nss. cbn [assoc r_nss set_nss rt_with].
+      destruct (String.eqb ns default_ns); [|reflexivity]. cbn [assoc].
+      destruct (String.eqb n "a") eqn:A; destruct (String.eqb n "b") eqn:B; try reflexivity.
+      apply String.eqb_eq in A. apply String.eqb_eq in B. subst n. discriminate.
+    + intro ns. unfold ns_def, ab_nss, ba_nss. cbn [assoc r_nss set_nss rt_with]. destruct (String.eqb ns default_ns); reflexivity.
+  - intro H. apply (f_equal r_nss) in H. vm_compute in H. discriminate.
+  - vm_compute. repeat constructor.
+  - vm_compute. reflexivity.
+Qed.
 
 (* the frame property up to the order of entries: a change G of the namespaces that the script cannot observe (sem_ok G R W: globals
    of R read the same after G, an assignment to a global of W commutes with G up to nss_eq - it may CREATE the global -, G respects
